@@ -608,39 +608,25 @@ Fixpoint leaves_p (parent : rule) (n : node) : list (rule * rule * text) :=
   | Tok r v => [(parent, r, v)]
   | Tree r ch => flat_map (leaves_p r) ch
   end.
-Definition starts_value_char (t : text) : bool :=   (* the next character continues VALUE: [^\s=;] *)
-  match t with
-  | c :: _ => negb (is_space c || (c =? 61)%N || (c =? 59)%N)
-  | [] => false
-  end.
 Definition is_numeric_rule (r : rule) : bool :=
   Pos.eqb r r_NUMERIC || Pos.eqb r r_INT || Pos.eqb r r_NEG_INF || Pos.eqb r r_POS_INF.
 Definition starts_numeric_char (t : text) : bool :=
   match t with c :: _ => is_digit c || (c =? 46)%N | [] => false end.
 
-(* state while scanning the leaves of a record:  in_two = inside a theta whose last significant
-   token so far is the NUMERIC of an init preceded by a low (the state in which lark's contextual
-   lexer also accepts VALUE, so that ")x2" / ")FIX" / ")3" is lexed as one VALUE token) *)
-Fixpoint glue_scan (l : list (rule * rule * text)) (seen_low : bool) (last_init : bool) : bool :=
+(* adjacency the lexer cares about: a numeric token must not be glued to a following digit or "."
+   (the former quirk - ")x2" / ")FIX" lexed as one VALUE token after a two-value form - was removed from
+   the grammar by the fix for C01-THETA-XN-REFUSED, commit bd27e55: VALUE may no longer start with ")") *)
+Fixpoint glue_scan (l : list (rule * rule * text)) : bool :=
   match l with
   | [] => true
   | (p, r, v) :: tl =>
       let next_text := match tl with (_, _, v') :: _ => v' | [] => [] end in
-      if Pos.eqb r r_LPAR then glue_scan tl false false
-      else if Pos.eqb r r_RPAR
-           then (if seen_low && last_init then negb (starts_value_char next_text) else true)
-                && glue_scan tl false false
-      else if is_numeric_rule r
-           then negb (starts_numeric_char next_text)
-                && glue_scan tl (seen_low || Pos.eqb p r_low) (Pos.eqb p r_init)
-      else if Pos.eqb r r_WS || Pos.eqb r r_COMMENT || Pos.eqb r r_NEWLINE
-           then glue_scan tl seen_low last_init
-      else glue_scan tl seen_low false
+      (if is_numeric_rule r then negb (starts_numeric_char next_text) else true) && glue_scan tl
   end.
 
 Definition reparse_ok (root : node) : bool :=
   forallb (fun t => theta_gram (skeleton (children t))) (thetas_of root)
-  && glue_scan (leaves_p r_root root) false false.
+  && glue_scan (leaves_p r_root root).
 
 (* the theta parameters (with names) pharmpy reads back from the text of these record trees *)
 Definition reread (all_names : list text) (roots : list node) : res (list (text * param V)) :=
@@ -818,35 +804,17 @@ Definition g_repr (p : param V) : bool :=
 Definition need_up (p : param V) : bool := p_need_up V F p.
 Definition need_low (p : param V) : bool := p_need_low V F p.
 
-(* the closing parenthesis - or, for a theta without parentheses, the init after which update would put
-   one - is followed by white space inside the theta (or ends it) *)
-Fixpoint closer_spaced (closer : rule) (ch : list node) : bool :=
-  match ch with
-  | [] => true
-  | c :: tl => if has_rule closer c
-               then match tl with [] => true | d :: _ => is_trivia d end
-               else closer_spaced closer tl
-  end.
-Definition rpar_spaced (ch : list node) : bool :=
-  closer_spaced (if has r_LPAR ch then r_RPAR else r_init) ch.
-
 Definition g_xn_uniform (grp : list (param V)) : bool :=
   match grp with [] => false | p :: tl => forallb (param_eqb V F p) tl end.
 Definition g_xn_nofix (ch : list node) (n : N) (p : param V) : bool :=
   N.eqb n 1 || negb (p_fix p) || has r_FIX ch.
-Definition g_spaced (ch : list node) (next_spaced : bool) (p : param V) : bool :=
-  need_up p || negb (need_low p) || (rpar_spaced ch && next_spaced).
-
-Definition guard_theta (ch : list node) (n : N) (grp : list (param V)) (next_spaced : bool) : bool :=
+Definition guard_theta (ch : list node) (n : N) (grp : list (param V)) : bool :=
   match grp with
   | [] => false
   | p :: _ =>
       plain_theta ch && Nat.eqb (length grp) (N.to_nat n) && g_xn_uniform grp
-      && g_xn_nofix ch n p && g_spaced ch next_spaced p && g_repr p
+      && g_xn_nofix ch n p && g_repr p
   end.
-
-Definition starts_spaced (l : list node) : bool :=
-  match l with [] => true | d :: _ => is_trivia d end.
 
 Fixpoint guard_children (ch : list node) (ps : list (param V)) : bool :=
   match ch with
@@ -854,7 +822,7 @@ Fixpoint guard_children (ch : list node) (ps : list (param V)) : bool :=
   | c :: tl =>
       if is_theta_tree c
       then match multiple (children c) with
-           | Ok n => guard_theta (children c) n (firstn (N.to_nat n) ps) (starts_spaced tl)
+           | Ok n => guard_theta (children c) n (firstn (N.to_nat n) ps)
                      && guard_children tl (skipn (N.to_nat n) ps)
            | Err _ => false
            end
@@ -862,7 +830,8 @@ Fixpoint guard_children (ch : list node) (ps : list (param V)) : bool :=
   end.
 Definition guard_record (root : node) (ps : list (param V)) : bool := guard_children (children root) ps.
 
-(* which conjunct fails (for classification): 1 plain, 2 xn_uniform, 3 xn_nofix, 4 spaced, 5 repr, 6 count *)
+(* which conjunct fails (for classification): 1 plain, 2 xn_uniform, 3 xn_nofix, 5 repr, 6 count
+   (4 was g_spaced, needed until the grammar fix bd27e55) *)
 Fixpoint guard_fail_children (ch : list node) (ps : list (param V)) : list nat :=
   match ch with
   | [] => match ps with [] => [] | _ => [6] end
@@ -877,7 +846,6 @@ Fixpoint guard_fail_children (ch : list node) (ps : list (param V)) : list nat :
                ++ (if g_xn_uniform grp then [] else [2])
                ++ match grp with
                   | p :: _ => (if g_xn_nofix k n p then [] else [3])
-                              ++ (if g_spaced k (starts_spaced tl) p then [] else [4])
                               ++ (if forallb g_repr grp then [] else [5])
                   | [] => []
                   end
